@@ -595,8 +595,8 @@ def run(ctx):
             if ctx.quick:
                 pairs.append(((a, b), 1, None, "line-first"))
             else:
-                pairs.append(((a, b), 2, 4000, "call-first"))
-                pairs.append(((a, b), 1, 3000, "line"))
+                pairs.append(((a, b), 2, 2500, "call-first"))
+                pairs.append(((a, b), 1, 2000, "line"))
     # two parses running at once (each with its own OFXTree and source): a switch at the first visit of every function call
     for a, b in itertools.combinations_with_replacement(PARSE_SMALL, 2):
         pairs.append(((a, b), 1, 3000, "call-first"))
@@ -638,7 +638,7 @@ def run(ctx):
         f"{depth}" + (" (length 3 over the 14 operations that touch shared state)" if depth == 3 else "") + " in a process forked from a pristine parent, each result compared with the operation alone in a "
         "pristine process, inputs snapshotted before/after; states = distinct global-state fingerprints reached (dispatch registries, module-level containers and caches, class dictionaries); "
         "schedules: all pairs of the 6 converter operations with preemption bound 2 at line granularity (every line executed inside ofxtools/ is a scheduling point); pairs of tree/instance "
-        "operations at function-call granularity with bound " + ("1" if ctx.quick else "2 (capped at 6000 executions) and at line granularity with bound 1 (capped at 3000)") +
+        "operations at function-call granularity with bound " + ("1" if ctx.quick else "2 (capped at 2500 executions per pair; the evidence counts the capped pairs) and at line granularity with bound 1 (capped at 2000)") +
         "; all ordered pairs of the 6 whole-document operations with bound 0" + ("; 4 whole-document pairs with bound 1 (capped at 1500) and 2 triples (capped at 4000)" if ctx.thorough else "") ,
         "exhaustive": True,
     }
